@@ -174,6 +174,34 @@ def r3c_fulfil_always_stores(cx):
     cx.ob("R3", "R3/Vow.fulfil/always-stores", ok, g, "every path of Vow::fulfil stores the given value into the shared cell (no value is special-cased)")
 
 
+def r5_entry_adopts_the_vow_it_is_given(cx):
+    """a reference taken on a Vow *before* the entry exists (a forward or self reference) must see the final position:
+    the constructors of BasicEntry that take a `Vow<EntryIdx>` make that very cell the entry's `idx` -- moved whole
+    into the entry, never read (`get`) and copied into a fresh cell, which would leave every Bound taken earlier on the
+    caller's cell at its initial value"""
+    F = cx.F
+    n = 0
+    for f in F.live_fns:
+        if "blocks" not in f or f.get("kind") == "closure" or not re.search(r"directory_pack::BasicEntry", f.get("impl_self") or ""):
+            continue
+        ps = [l for l in range(1, f["arg_count"] + 1) if re.search(r"Vow<.*EntryIdx>$", f["locals"][l].get("ty") or "") and not (f["locals"][l].get("ty") or "").startswith("&")]
+        if not ps:
+            continue
+        b = F.deep_body(f, only=r"directory_pack::BasicEntry")
+        aggs = [st for blk in b.blocks if not blk.get("cleanup") for st in blk["s"]
+                if st["k"] == "assign" and st["rv"]["k"] == "agg" and (st["rv"].get("adt") or "").endswith("directory_pack::BasicEntry") and "idx" in (st["rv"].get("fnames") or [])]
+        copies = b.whole_copies(set(ps))
+        ok = bool(aggs)
+        for st in aggs:
+            pl = op_place(st["rv"]["fields"][st["rv"]["fnames"].index("idx")])
+            ok = ok and pl is not None and not pl.get("p") and pl["l"] in copies
+        n += 1
+        cx.ob("R5", "R5/BasicEntry.%s/adopts-the-vow" % f["item_name"], ok, f,
+              "the Vow<EntryIdx> parameter is moved whole into the `idx` of the entry built (%d constructions)" % len(aggs))
+    if n < 2:
+        raise AnchorLost("constructors of BasicEntry taking a Vow<EntryIdx>: %d" % n)
+
+
 RULES = [
     ("R1", r1_reindex, 7),
     ("R2", r2_index_is_position, 2),
@@ -181,4 +209,5 @@ RULES = [
     ("R3", r3b_word_reads_the_cell_every_time, 2),
     ("R3", r3c_fulfil_always_stores, 1),
     ("R4", r4_value_ids, 3),
+    ("R5", r5_entry_adopts_the_vow_it_is_given, 2),
 ]
